@@ -211,7 +211,10 @@ def main(argv):
                     down = be.model_down(i, T, r["type"], m["value"])
                     if not down or down.get("r") != "ok":
                         rep["model_down"] = down
-                        rep["signature"] = {"class": "specialized-to-unparsable-child", **tags}
+                        ctags = B.features_of(types.parent_chain(types.decls[r["type"]]), types) if r.get("type") in types.decls else {}
+                        outs = (down or {}).get("out") or [{}]
+                        rep["signature"] = {"class": "specialized-to-unparsable-child", **tags,
+                                            "child_error": (outs[0] or {}).get("e"), "child_reserved8": bool(ctags.get("reserved8"))}
                         run.violation("impl", "python %s.parse_all(%s) returned a %s although that child does not match / parse"
                                       % (T, s.hex()[:40], r["type"]), rep)
                     elif W.canon(down["value"]) != W.canon(r["value"]):
